@@ -36,7 +36,7 @@ type Obligation struct {
 }
 
 type Query struct {
-	stale map[string]bool // written clauses naming locals that no longer exist
+	stale             map[string]bool // written clauses naming locals that no longer exist
 	rtBase            string          // read tracking: address of the receiver object
 	rtLeaves          map[string]Leaf // array family -> leaf of the receiver type
 	newLoopHelpers    map[string]bool
